@@ -135,25 +135,8 @@ def _wiring(prog, res):
       covered_elsewhere={})
   fin = prog.function('lattice_layer.Lattice.finalize_constraints')
   res.analysed(fin)
-  good = False
-  for a in ast.walk(fin.node):
-    if isinstance(a, ast.Call) and isinstance(a.func, ast.Attribute) and \
-        a.func.attr in ('assign', 'assign_add') and dotted(
-            a.func.value) == 'self.kernel':
-      inner = [c for c in ast.walk(a) if isinstance(c, ast.Call) and dotted(
-          c.func) == 'self._final_constraints']
-      if inner and dotted(inner[0].args[0]) == 'self.kernel':
-        arg = a.args[0]
-        if a.func.attr == 'assign':
-          good = arg is inner[0]
-        else:
-          good = (isinstance(arg, ast.BinOp) and isinstance(arg.op, ast.Sub)
-                  and arg.left is inner[0] and dotted(arg.right) ==
-                  'self.kernel')
-  res.check(good, 'W1', '%s|applies-strict-copy' % fin.qualname, fin.loc(),
-            'kernel <- self._final_constraints(kernel)',
-            'Lattice.finalize_constraints does not store '
-            'self._final_constraints(self.kernel) into self.kernel')
+  wiring.check_exact_store(prog, res, fin, 'kernel', '_final_constraints')
+  res.floor('R1', 1)
   # __call__ -> dykstra / finalize
   callm = lc.methods['__call__']
   res.analysed(callm)
